@@ -474,6 +474,7 @@ func segmentFMP4MuxParts(
 	var timeScale uint32
 	var segmentDuration time.Duration
 	breakAtNextMdat := false
+	tracksAtEnd := make(map[uint32]struct{})
 
 	partsEnd, err := segmentFMP4FindPartsEnd(r)
 	if err != nil {
@@ -525,7 +526,13 @@ func segmentFMP4MuxParts(
 
 			for _, e := range trun.Entries {
 				if dts >= durationMP4 {
-					breakAtNextMdat = true
+					// stop reading when every track has reached the end of the requested range.
+					// samples of a track are stored in a part later than samples of other tracks
+					// with the same timestamp when they are longer.
+					tracksAtEnd[tfhd.TrackID] = struct{}{}
+					if len(tracksAtEnd) >= len(tracks) {
+						breakAtNextMdat = true
+					}
 					break
 				}
 
